@@ -142,6 +142,26 @@ ImContains(im)   == Ch(im,1) # "F" /\ Ch(im,7) = "F" /\ Ch(im,8) = "F"
 ImWithin(im)     == Ch(im,1) # "F" /\ Ch(im,3) = "F" /\ Ch(im,6) = "F"
 ImCovers(im)     == (Ch(im,1) # "F" \/ Ch(im,2) # "F" \/ Ch(im,4) # "F" \/ Ch(im,5) # "F")
                     /\ Ch(im,7) = "F" /\ Ch(im,8) = "F"
+\* the other named predicates of the OGC model (IntersectionMatrix::is_*): masks, with the dimensions of the operands where
+\* the definition depends on them (crosses, overlaps); da, db = -1 for an empty operand
+ImT(im, k) == Ch(im, k) # "F"
+ImCoveredBy(im) == (ImT(im,1) \/ ImT(im,2) \/ ImT(im,4) \/ ImT(im,5)) /\ Ch(im,3) = "F" /\ Ch(im,6) = "F"
+ImEqualTopo(im) == ImT(im,1) /\ Ch(im,3) = "F" /\ Ch(im,6) = "F" /\ Ch(im,7) = "F" /\ Ch(im,8) = "F"
+ImTouches(im)   == Ch(im,1) = "F" /\ (ImT(im,2) \/ ImT(im,4) \/ ImT(im,5))
+ImCrosses(im, da, db) ==
+    IF da < 0 \/ db < 0 THEN FALSE
+    ELSE IF da < db THEN ImT(im,1) /\ ImT(im,3)
+    ELSE IF da > db THEN ImT(im,1) /\ ImT(im,7)
+    ELSE IF da = 1 THEN Ch(im,1) = "0" ELSE FALSE
+ImOverlaps(im, da, db) ==
+    IF da < 0 \/ da # db THEN FALSE
+    ELSE IF da = 1 THEN Ch(im,1) = "1" /\ ImT(im,3) /\ ImT(im,7)
+    ELSE ImT(im,1) /\ ImT(im,3) /\ ImT(im,7)
+\* the dimension of an operand as the matrix shows it: the largest entry of its interior row / column
+ChDim(c) == IF c = "F" THEN -1 ELSE IF c = "0" THEN 0 ELSE IF c = "1" THEN 1 ELSE 2
+Max3(a, b, c) == IF a >= b /\ a >= c THEN a ELSE IF b >= c THEN b ELSE c
+ImRowDim(im) == Max3(ChDim(Ch(im,1)), ChDim(Ch(im,2)), ChDim(Ch(im,3)))
+ImColDim(im) == Max3(ChDim(Ch(im,1)), ChDim(Ch(im,4)), ChDim(Ch(im,7)))
 ImTransposeIdx == <<1, 4, 7, 2, 5, 8, 3, 6, 9>>
 ImTranspose(im) == Ch(im,1) \o Ch(im,4) \o Ch(im,7) \o Ch(im,2) \o Ch(im,5) \o Ch(im,8)
                    \o Ch(im,3) \o Ch(im,6) \o Ch(im,9)
